@@ -38,10 +38,12 @@ Expected(e) == SumTo([i \in 1..e.D |-> e.w[i] * KVal(e.ktab, Key(e, i))], e.D)
 TableOK(e) == /\ e.loss = Expected(e)                                         \* weighted sum of the single-coordinate values
               /\ Len(e.calls) = e.D
               /\ \A i \in 1..e.D : e.calls[i] = Key(e, i)                    \* filters on simulated series only, per coordinate, per member
-              /\ e.inputsame /\ e.statesame
+              /\ e.inputsame
+(* (statesame - the attributes of the loss object are unchanged - is logged for information only: a cache is legitimate as long as no
+   result depends on it; dependence on earlier evaluations is decided behaviourally, by `seen` and by the "fresh-object" relations) *)
 
 EvalOK(e) == /\ (e.inp \in DOMAIN seen => seen[e.inp] = e.res)              \* a function of its arguments only, whatever came before
-             /\ e.inputsame /\ e.statesame
+             /\ e.inputsame
              /\ (e.needsnonneg => e.nonneg)
 
 Step == /\ More
@@ -54,9 +56,9 @@ Step == /\ More
 
 Why == IF ~More THEN "end"
        ELSE CASE Ev.e = "table" /\ Ev.loss # Expected(Ev) -> "not-the-weighted-sum"
-              [] Ev.e = "table" /\ ~(Ev.inputsame /\ Ev.statesame) -> "impure"
+              [] Ev.e = "table" /\ ~Ev.inputsame -> "input-modified"
               [] Ev.e = "table" -> "filter-routing"
-              [] Ev.e = "eval" /\ ~(Ev.inputsame /\ Ev.statesame) -> "impure"
+              [] Ev.e = "eval" /\ ~Ev.inputsame -> "input-modified"
               [] Ev.e = "eval" /\ Ev.needsnonneg /\ ~Ev.nonneg -> "negative"
               [] Ev.e = "eval" -> "depends-on-earlier-evaluations"
               [] Ev.e = "rel" -> Ev.kind
